@@ -146,7 +146,26 @@ static void run_stack(const char* subj, Rng& g, long nops, std::size_t block, Ma
     std::vector<typename Stack::marker> markers;
     std::vector<MarkerRec>              mrec;
     auto                                place = [&](int slot) { return R->place_object(sizeof(Stack), alignof(Stack), slot % 2 == 0); };
-    int                                 cur = 0;
+    int                                 cur = 0, other = -1;
+    std::size_t                         base_live = 0;
+    long                                assign_in = 0, n_assign = 0;
+    auto                                do_assign = [&]
+    { // *primary = std::move(*older): the primary's blocks go back upstream, it takes over the older stack completely
+        O->verify_all("before move assignment");
+        O->drop_from(base_live, "move assignment (target's allocations are released)");
+        *st[cur] = std::move(*st[other]);
+        emit(fmt("%s move_assign", subj), "done", stack_state(*st[cur]));
+        long lk = Handlers::leak();
+        st[other]->~Stack();
+        emit(fmt("%s destroy_moved_from", subj), fmt("leaks %ld", Handlers::leak() - lk), "-");
+        st[other] = nullptr;
+        other = -1;
+        markers.clear();
+        mrec.clear();
+        ++n_assign;
+        O->verify_all("after move assignment");
+    };
+    (void)n_assign;
     // construct
     {
         void*       mem = place(0);
@@ -157,6 +176,11 @@ static void run_stack(const char* subj, Rng& g, long nops, std::size_t block, Ma
     }
     for (long i = 0; i < nops; ++i)
     {
+        if (other >= 0 && --assign_in <= 0)
+        {
+            do_assign();
+            continue;
+        }
         Stack& s = *st[cur];
         unsigned k = g.below(100);
         if (k < 40)
@@ -313,9 +337,27 @@ static void run_stack(const char* subj, Rng& g, long nops, std::size_t block, Ma
             emit(fmt("%s capacity_left", subj), fmt("num %zu", s.capacity_left()), stack_state(s));
             emit(fmt("%s next_capacity", subj), fmt("num %zu", s.next_capacity()), stack_state(s));
         }
+        else if (!std::is_same<typename Stack::allocator_type, static_block_allocator>::value && other < 0 && g.chance(50))
+        { // a second stack on the same upstream becomes the primary; the older one is move-ASSIGNED into it later
+            int         to = (cur + 1) % 3;
+            void*       mem = place(to);
+            std::string res = guarded([&] { st[to] = make(mem); });
+            emit(fmt("%s new2 %zu", subj, block), res.empty() ? "done" : res, st[to] ? stack_state(*st[to]) : "-");
+            if (!st[to])
+                continue;
+            emit(fmt("%s switch", subj), "done", stack_state(*st[to]));
+            other = cur;
+            cur = to;
+            markers.clear();
+            mrec.clear();
+            base_live = O->live.size();
+            assign_in = 3 + long(g.below(25));
+        }
         else
         { // move-construct into the other slot, destroy the moved-from object
             int   to = (cur + 1) % 3;
+            while (to == other)
+                to = (to + 1) % 3;
             void* mem = place(to);
             st[to] = ::new (mem) Stack(std::move(s));
             emit(fmt("%s move", subj), "done", stack_state(*st[to]));
@@ -329,6 +371,8 @@ static void run_stack(const char* subj, Rng& g, long nops, std::size_t block, Ma
         if (!O->failures.empty())
             break;
     }
+    if (other >= 0 && O->failures.empty())
+        do_assign();
     if (bad_mode && FOONATHAN_MEMORY_DEBUG_POINTER_CHECK && O->failures.empty())
     { // C16: unwinding to a marker above the current top must be reported (child process; the stack here is untouched)
         Stack& s = *st[cur];
